@@ -29,7 +29,11 @@ const (
 	ctrlAddr = "192.168.1.100:60000"
 )
 
-var classNames = []string{"silence", "valid", "len0", "len1", "len63", "len65", "len128", "len1024", "wrong-serial", "serial-0", "wrong-function", "protocol-00", "protocol-19", "malformed-field"}
+var classNames = []string{"silence", "valid", "len0", "len1", "len63", "len65", "len128", "len1024", "wrong-serial", "serial-0", "wrong-function", "protocol-00", "protocol-19", "malformed-field", "lenN"}
+
+// nRegular: the classes a regular scenario draws from; "lenN" (any length 0..1100 but 64, well-formed
+// 64-byte prefix) is only used by the length sweep.
+var nRegular = len(classNames) - 1
 
 // marked returns reply values for the k-th datagram of a sequence: distinguishable from every other
 // datagram of the sequence.
@@ -146,9 +150,18 @@ func client(path string) uhppote.IUHPPOTE {
 }
 
 func scenario(op *spec.Op, path string, maxLen int) e1.Scenario {
+	return scenarioX(op, path, maxLen, false)
+}
+
+// scenarioX with lengths=true: the first datagram has every length 0..1100 except 64 (its first 64
+// bytes a well-formed reply), the second is well-formed.
+func scenarioX(op *spec.Op, path string, maxLen int, lengths bool) e1.Scenario {
 	var o *observation
 	args := ops.EchoArgs(op, ops.BaselineReply(op))
 	name := fmt.Sprintf("%s/%s/len<=%d", op.Name, path, maxLen)
+	if lengths {
+		name = fmt.Sprintf("%s/%s/every-length-then-valid", op.Name, path)
+	}
 
 	body := func() {
 		o = &observation{}
@@ -156,8 +169,27 @@ func scenario(op *spec.Op, path string, maxLen int) e1.Scenario {
 		ctrl := &farm.Controller{Addr: ctrlAddr}
 		ctrl.Respond = func(proto string, request []byte, from string) []farm.Reply {
 			replies := []farm.Reply{}
+			if lengths {
+				n := vs.Choose(1100, "datagram-length")
+				if n >= 64 {
+					n++
+				}
+				if n == 0 && path == "tcp" {
+					n = 1
+				}
+				d := spec.EncodeReply(op, serial, marked(op, 0))
+				if n < 64 {
+					d = d[:n]
+				} else {
+					d = append(d, make([]byte, n-64)...)
+				}
+				v := spec.EncodeReply(op, serial, marked(op, 1))
+				cur.seq = []int{len(classNames) - 1, 1}
+				cur.sent = [][]byte{d, v}
+				return []farm.Reply{{Delay: T / 10, Data: d}, {Delay: 2 * T / 10, Data: v}}
+			}
 			for k := 0; k < maxLen; k++ {
-				c := vs.Choose(len(classNames), "datagram-class")
+				c := vs.Choose(nRegular, "datagram-class")
 				if c == 0 {
 					break
 				}
@@ -265,9 +297,9 @@ func budget(r *vk.Run) time.Duration {
 func main() {
 	r := vk.Start("C03", "model_checking")
 	scenarios := []e1.Scenario{}
-	long := 3
+	long, short := 3, 2
 	if r.Thorough() {
-		long = 4
+		long, short = 5, 4
 	}
 	for i := range spec.Ops {
 		op := &spec.Ops[i]
@@ -275,7 +307,7 @@ func main() {
 			continue
 		}
 		for _, path := range []string{"broadcast", "udp", "tcp"} {
-			n := 2
+			n := short
 			switch op.Name {
 			case "GetStatus", "GetCardByID", "PutCard":
 				n = long
@@ -284,13 +316,18 @@ func main() {
 		}
 	}
 	if r.Thorough() {
+		for _, name := range []string{"GetStatus", "GetCardByID", "PutCard", "GetTimeProfile", "GetEvent"} {
+			for _, path := range []string{"broadcast", "udp", "tcp"} {
+				scenarios = append(scenarios, scenarioX(spec.OpByName(name), path, 2, true))
+			}
+		}
 		e1.PerScenario = 6 * time.Minute
 	}
 	e1.RunAll(r, scenarios, budget(r))
 	if r.Worker == "" && r.Replay == "" {
 		e1.Conformance(r)
 	}
-	r.Rule("for each of the 31 directed operations x {broadcast, connected UDP, TCP}: every sequence of datagram classes " + fmt.Sprint(classNames[1:]) + " up to length 2 (3 / thorough 4 for GetStatus, GetCardByID, PutCard), chosen datagram by datagram by the environment; distinct = distinct (sequence, outcome-kind) labels observed")
+	r.Rule("for each of the 31 directed operations x {broadcast, connected UDP, TCP}: every sequence of datagram classes " + fmt.Sprint(classNames[1:nRegular]) + fmt.Sprintf(" up to length %d (%d for GetStatus, GetCardByID, PutCard), chosen datagram by datagram by the environment; thorough: for 5 operations x 3 paths a first datagram of every length 0..1100 but 64 (well-formed 64-byte prefix) followed by a well-formed one;", short, long) + " distinct = distinct (sequence, outcome-kind) labels observed")
 	r.Assume("simulated network vs/net.go models UDP/TCP delivery, deadlines and buffer truncation; its fidelity is validated on the loopback by the E3 replays where registered")
 	r.Assume("reference acceptor and decoder in /verif/spec")
 	r.Finish()
